@@ -1592,6 +1592,11 @@ fn eval_c17(job: &Job) -> JobResult {
 
 fn eval_c18(job: &Job) -> JobResult {
     let p = &job.program;
+    if !rc11::supported(p) {
+        // spin loops mixed with blocking primitives: the SC machine (the loop is a blocking read
+        // of a write-once flag) decides progress and outcomes
+        return eval_conf(job);
+    }
     let mut res = JobResult::default();
     let rc = rc11::enumerate(p, Variant::Rc11, RC_MAX_STATES);
     let rcm = if p.has_sc_access() { rc11::enumerate(p, Variant::Rc11Minus, RC_MAX_STATES) } else { rc.clone() };
